@@ -423,7 +423,7 @@ theorem setSize_frame (b : SecBuf) (v : BitVec 64) :
 theorem insertFinish_frame (b : SecBuf) (ns n : BitVec 64) :
     (b.insertFinish ns n).entSize = b.entSize ∧ (b.insertFinish ns n).link = b.link := by
   obtain ⟨h1, h2⟩ := setSize_frame b ns
-  unfold SecBuf.insertFinish
+  rw [SecBuf.insertFinish_hand]
   dsimp only
   split <;> exact ⟨h1, h2⟩
 
